@@ -141,8 +141,6 @@ func NewSymTab(seed int64, moduleAddr []byte, prefix string) *SymTab {
 	switch {
 	case seed%2 != 0:
 		t.NonceBase = 0
-	case seed%4 == 0:
-		t.NonceBase = (1 << 32) - 2
 	default:
 		t.NonceBase = binary.BigEndian.Uint64(prf(seed, "noncebase", 8)) >> 2
 	}
@@ -161,6 +159,12 @@ func NewSymTab(seed int64, moduleAddr []byte, prefix string) *SymTab {
 	for _, s := range addrSymbols {
 		b := prf(seed, "addr:"+s, 20)
 		b[0] |= 1
+		switch s { // ordinary addresses that happen to start with zero bytes (about 1 in 256 does)
+		case "a8":
+			b[0] = 0
+		case "x2":
+			b[0], b[1], b[2] = 0, 0, 0
+		}
 		reg(s, b)
 	}
 	reg("zero", make([]byte, 20))
@@ -365,15 +369,18 @@ func (t *SymTab) DomSym(v uint32) string {
 	}
 	return fmt.Sprintf("?%d", v)
 }
-// Nonces: abstract nonce i stands for base+i, piecewise: 0..999 plain, 1000..1999 shifted by 2^32,
+// Nonces: abstract nonce i stands for base+i, piecewise: 0..999 plain, 1000..1999 shifted by 2^33,
 // 2000..2999 shifted by 2^63 -- so that keys which agree after a truncation to 32 or 63 bits are DIFFERENT
-// abstract nonces (TLC's integers are 32-bit; the concrete values never enter the specification).
+// abstract nonces -- and 3000..3999 is the absolute range 2^32-500 .. 2^32+499, contiguous across the 32-bit
+// boundary (for counters).  TLC's integers are 32-bit; the concrete values never enter the specification.
 func (t *SymTab) Nonce(i int) uint64 {
 	switch {
+	case i >= 3000 && i < 4000: // absolute, contiguous across 2^32: 3500 is 2^32
+		return (1 << 32) - 500 + uint64(i-3000)
 	case i >= 2000 && i < 3000:
 		return t.NonceBase + (1 << 63) + uint64(i-2000)
-	case i >= 1000 && i < 2000:
-		return t.NonceBase + (1 << 32) + uint64(i-1000)
+	case i >= 1000 && i < 2000: // same low 32 bits as i-1000
+		return t.NonceBase + (1 << 33) + uint64(i-1000)
 	}
 	return t.NonceBase + uint64(int64(i))
 }
@@ -382,8 +389,10 @@ func (t *SymTab) NonceSym(v uint64) int {
 	switch {
 	case d < 1000:
 		return int(d)
-	case d-(1<<32) < 1000:
-		return 1000 + int(d-(1<<32))
+	case v-((1<<32)-500) < 1000 && t.NonceBase != 0 || (t.NonceBase == 0 && v >= (1<<32)-500 && v < (1<<32)+500):
+		return 3000 + int(v-((1<<32)-500))
+	case d-(1<<33) < 1000:
+		return 1000 + int(d-(1<<33))
 	case d-(1<<63) < 1000:
 		return 2000 + int(d-(1<<63))
 	case d < 1_000_000:
